@@ -40,6 +40,15 @@ CHECKS = {
  "C14": dict(engine="exitstack", design="5/C14", technique="TLA+ ExitStack spec (unwind loop with suppress/reraise flags vs recursive nested-with definition), TLC exhaustive over stacks and histories, edge-cover replay into ExitStack, nested `async with` and contextlib.AsyncExitStack",
    text="spec/ExitStack.tla transcribes __aexit__'s loop and flags as one step per exit callable and TLC proves it equal to the recursive definition of nested with-statements (NestedEq) for every stack of 0..3|4 entries x {exit, callback} x {falsy, truthy, raise, raise-while-handling, re-raise} x block {normal, raises}, and Once/OnlyOwner over all histories of register/enter-failure/pop_all/leave/aclose/unwind-again; every transition is replayed with rotating concrete kinds (async/sync CM, pushed async/sync callable, pushed manager, async/sync callback with arguments; Exception and BaseException replacements): order of exits, exception object each received, outcome, exactly-once; the recursively built nested `async with` and contextlib.AsyncExitStack must agree with the spec on every replay.",
    note="Trusted: TLC, harness. __context__ chains are not compared (not part of the statement) - but an unwind that never returns is reported (2 s guard)."),
+ "C07": dict(engine="handles", design="5/C07", technique="TLA+ Handles spec (tree of handles over one underlying iterator), TLC exhaustive over operation histories, edge-cover replay into asyncstdlib.borrow with instrumented underlying iterators",
+   text="spec/Handles.tla models borrowed (and scoped) handles as a tree over the underlying iterator with the actions borrow/re-borrow, next on any handle or on the underlying, aclose directly or via iter(h), handing a handle to a closing tool (islice: exactly j items; zip: one pull more), asend; TLC checks BorrowNeverCloses/InOrder over all histories within bounds; every transition is replayed over class-based, async-generator, asend/athrow-capable and athrow-only underlying iterators comparing items, pulls, end detections and aclose calls seen by the underlying after every operation, then probing every ended handle (yields nothing, does not advance or reach the underlying through __anext__/asend/athrow) and that the underlying continues in order.",
+   note="Trusted: TLC, harness. Closing tools are represented by islice and zip; how much another tool consumes is C05's business."),
+ "C08": dict(engine="handles", design="5/C08", technique="TLA+ Handles spec (scope handles: aclose is a no-op, leaving the block ends the handle and closes the parent), TLC exhaustive, edge-cover replay into asyncstdlib.scoped_iter",
+   text="Same specification with scope handles: nested scopes 1..3 deep (also over a borrowed handle), tools applied inside the block, exits by fall-through/exception/cancellation in LIFO order; TLC checks that nothing inside the block closes the underlying iterator; every transition is replayed: successive tools see consecutive items, the underlying observes aclose exactly at the outermost exit (once), inner exits end only their own handle, ended handles yield nothing.",
+   note="Trusted: TLC, harness. Cancellation of the block is represented by __aexit__ receiving a BaseException (the block itself does not suspend); suspension inside tools is covered by C18."),
+ "C15": dict(engine="decorator", design="5/C15", technique="TLA+ Decorator spec (per-call enter/body/exit machines), TLC exhaustive over interleavings of 2..3 concurrent calls and sequential repeats with cancellation, edge-cover replay with hand-driven tasks",
+   text="spec/Decorator.tla models each decorated call as Start/EnterDone/BodyEnd/ExitDone with a suspension in enter, body and exit and cancellation at each; TLC checks OwnGenerator/Paired/Result for generator-based and class-based managers, suppressing or not; every transition is replayed into a real decorated coroutine function: per call the enter/exit counts, the generator instance serving it, the exception its exit saw and its result.",
+   note="Trusted: TLC, harness (instrumented managers)."),
 }
 
 def main():
